@@ -20,7 +20,7 @@ for p in props:
             'replay_cmd_template': './bin/casketlint explain {path}',
             'engine': 'casketlint',
             'level_claimed': {'category': 'other', 'text': text, 'design_ref': 'DESIGN.md §A and §2 ' + p},
-            'level_note': 'Trusts go/types, x/tools v0.29.0 SSA construction and (for new helper functions) the behaviour-preserving source normalisation described in DESIGN.md A.3; CFG reasoning is path-insensitive except for constant-phi jump threading; panics inside callees are not treated as exits; rule tables in /verif/checker are hand-confirmed against the source. Decides the named structural clauses, not the behaviour.',
+            'level_note': 'Trusts go/types, x/tools v0.29.0 SSA construction, the abstract evaluator of DESIGN.md A.8 where a rule uses it, and (for new helper functions) the behaviour-preserving source normalisation described in DESIGN.md A.3; CFG reasoning is path-insensitive except for constant-phi jump threading; panics inside callees are not treated as exits; rule tables in /verif/checker are hand-confirmed against the source. Decides the named structural clauses, not the behaviour.',
             'technique': tech,
         })
     else:
@@ -32,7 +32,7 @@ m = {
            'baseline_off_cmd': 'cd /repo && GOFLAGS=-mod=mod go test -vet=off -count=1 -timeout 25m ./...',
            'source_commits': [], 'add_only': True},
  'engines': [{'name': 'casketlint', 'path': 'checker/', 'serves_properties': [c['property_id'] for c in checks],
-              'kind_free_text': 'repository-specific static analyser over go/types + go/ssa (x/tools v0.29.0): CFG reachability with removed edges/instructions (dominance, must-pass, guards), acquire/release pairing, intraprocedural value flow, constant-table agreement, bounds-obligation discharge'}],
+              'kind_free_text': 'repository-specific static analyser over go/types + go/ssa (x/tools v0.29.0): CFG reachability with removed edges/instructions (dominance, must-pass, guards), acquire/release pairing, intraprocedural value flow, constant-table agreement, bounds-obligation discharge, decision-table extraction by abstract evaluation of SSA over a finite abstraction (E10)'}],
  'checks': checks,
  'not_applicable': na,
  'notes': 'All claims are at level "other": each check decides structural necessary conditions of its property from /repo\'s current source (see DESIGN.md). fix: commits in /repo and known findings are listed in known_findings.txt.',
